@@ -40,7 +40,7 @@ class TablePass(AbstractPass):
         self.max_transforms = spec.get('maxT')
 
     def check_prerequisites(self):
-        return True
+        return self.spec.get('prereq', True)       # False: the pass's external program is not installed
 
     def _cid(self, path):
         return self.ids.get(Path(path).read_text(), -1)
